@@ -318,6 +318,8 @@ class Interp:
             return self.ev(e[1])
         if k == 'un':
             t, v = self.ev(e[2])
+            if e[1] == 'pos':
+                return t, v
             if e[1] == 'neg':
                 return t, fit(t, -v)
             rt = '%' if t == '%' else '&'
